@@ -194,12 +194,77 @@ pub fn search(tier: &str, seed: u64, s: &mut Search) {
         let hdr = format!(r#"<svg xmlns="http://www.w3.org/2000/svg" xmlns:xlink="http://www.w3.org/1999/xlink" width="{w}" height="{h}">"#);
         let plain = format!("{hdr}<defs>{defs0}</defs><g{tf}>{content}</g></svg>");
         let kind = i % 3;
-        let (wrapped, geometry) = match kind {
-            0 => (
-                format!(r#"{hdr}<defs>{defs0}<clipPath id="zc"{clip_tf}>{}</clipPath></defs><g clip-path="url(#zc)"><g{tf}>{content}</g></g></svg>"#, shapes.join("")),
-                Some(format!(r#"{hdr}<g{clip_tf} fill="black">{}</g></svg>"#, shapes.join(""))),
-            ),
-            1 => (
+        // the clip geometry as images rendered without any clipping machinery:
+        // alpha = min over the outer list ( max over the middle list ( min over the inner list ) )
+        let mut geometry: Vec<Vec<Vec<String>>> = vec![];
+        let mut plain = plain;
+        let wrapped = match kind {
+            0 => {
+                let variant = (i / 3) % 4;
+                let geo = |inner: &str| format!(r#"{hdr}<g fill="black">{inner}</g></svg>"#);
+                // a clip path linked from the clipPath element itself: it lives in the user space of the
+                // referencing element, NOT under the outer clip path's own transform
+                let (lx, ly, lw, lh) = (g.rng.range(0, w as i64 / 2), g.rng.range(0, h as i64 / 2), g.rng.range(8, w as i64), g.rng.range(8, h as i64));
+                let linked_shape = format!(r#"<rect x="{lx}" y="{ly}" width="{lw}" height="{lh}"/>"#);
+                let linked_def = format!(r#"<clipPath id="zl">{linked_shape}</clipPath>"#);
+                match variant {
+                    1 => {
+                        // outer clip path with a transform of its own and a linked clip path
+                        let ctf = format!(r#" transform="translate({} {}) scale({})""#, g.rng.range(3, 14), g.rng.range(3, 14), g.rng.pick(&["0.7", "1.2", "1"]));
+                        geometry.push(vec![vec![geo(&format!("<g{ctf}>{}</g>", shapes.join("")))]]);
+                        geometry.push(vec![vec![geo(&linked_shape)]]);
+                        format!(r#"{hdr}<defs>{defs0}{linked_def}<clipPath id="zc"{ctf} clip-path="url(#zl)">{}</clipPath></defs><g clip-path="url(#zc)"><g{tf}>{content}</g></g></svg>"#, shapes.join(""))
+                    }
+                    2 => {
+                        // objectBoundingBox units on a rectangle with a known box (+ transform, + linked clip path)
+                        let (bx, by, bw, bh) = (g.rng.range(2, w as i64 / 3), g.rng.range(2, h as i64 / 3), g.rng.range(12, w as i64 / 2 + 12), g.rng.range(12, h as i64 / 2 + 12));
+                        let fr: Vec<String> = (0..1 + g.rng.below(2))
+                            .map(|_| {
+                                let (fx, fy) = (g.rng.range(0, 6) as f32 / 10.0, g.rng.range(0, 6) as f32 / 10.0);
+                                format!(r#"<rect x="{}" y="{}" width="{}" height="{}"/>"#, fx, fy, g.rng.range(3, 9) as f32 / 10.0, g.rng.range(3, 9) as f32 / 10.0)
+                            })
+                            .collect();
+                        let ctf = if g.rng.chance(1, 2) { format!(r#" transform="translate({} {})""#, g.rng.range(-4, 8), g.rng.range(-4, 8)) } else { String::new() };
+                        let use_link = g.rng.chance(1, 2);
+                        let item = format!(r##"<rect x="{bx}" y="{by}" width="{bw}" height="{bh}" fill="#00f"/>"##);
+                        plain = format!("{hdr}{item}</svg>");
+                        geometry.push(vec![vec![geo(&format!(r#"<g{ctf}><g transform="translate({bx} {by}) scale({bw} {bh})">{}</g></g>"#, fr.join("")))]]);
+                        if use_link {
+                            geometry.push(vec![vec![geo(&linked_shape)]]);
+                        }
+                        format!(
+                            r##"{hdr}<defs>{linked_def}<clipPath id="zc" clipPathUnits="objectBoundingBox"{ctf}{}>{}</clipPath></defs><rect x="{bx}" y="{by}" width="{bw}" height="{bh}" fill="#00f" clip-path="url(#zc)"/></svg>"##,
+                            if use_link { r#" clip-path="url(#zl)""# } else { "" },
+                            fr.join("")
+                        )
+                    }
+                    3 => {
+                        // clip paths on the children of the clip path (each child cut by its own), under the outer transform
+                        let ctf = if g.rng.chance(1, 2) { format!(r#" transform="translate({} {})""#, g.rng.range(-4, 8), g.rng.range(-4, 8)) } else { String::new() };
+                        let mut defs = String::new();
+                        let mut body = String::new();
+                        let mut ors = vec![];
+                        for (j, sh) in shapes.iter().enumerate() {
+                            if g.rng.chance(2, 3) {
+                                let k = format!(r#"<rect x="{}" y="{}" width="{}" height="{}"/>"#, g.rng.range(0, w as i64 / 2), g.rng.range(0, h as i64 / 2), g.rng.range(8, w as i64), g.rng.range(8, h as i64));
+                                defs += &format!(r#"<clipPath id="zk{j}">{k}</clipPath>"#);
+                                body += &sh.replacen("/>", &format!(r#" clip-path="url(#zk{j})"/>"#), 1);
+                                ors.push(vec![geo(&format!("<g{ctf}>{sh}</g>")), geo(&format!("<g{ctf}>{k}</g>"))]);
+                            } else {
+                                body += sh;
+                                ors.push(vec![geo(&format!("<g{ctf}>{sh}</g>"))]);
+                            }
+                        }
+                        geometry.push(ors);
+                        format!(r#"{hdr}<defs>{defs0}{defs}<clipPath id="zc"{ctf}>{body}</clipPath></defs><g clip-path="url(#zc)"><g{tf}>{content}</g></g></svg>"#)
+                    }
+                    _ => {
+                        geometry.push(vec![vec![geo(&format!("<g{clip_tf}>{}</g>", shapes.join("")))]]);
+                        format!(r#"{hdr}<defs>{defs0}<clipPath id="zc"{clip_tf}>{}</clipPath></defs><g clip-path="url(#zc)"><g{tf}>{content}</g></g></svg>"#, shapes.join(""))
+                    }
+                }
+            }
+            1 =>
                 // fully white opaque luminance mask restricted to a rectangle
                 {
                     let (mx, my, mw, mh) = (g.rng.range(0, w as i64 / 2), g.rng.range(0, h as i64 / 2), g.rng.range(5, w as i64), g.rng.range(5, h as i64));
@@ -212,12 +277,11 @@ pub fn search(tier: &str, seed: u64, s: &mut Search) {
                     };
                     format!(r#"{hdr}<defs>{defs0}<mask id="zm" maskUnits="userSpaceOnUse" x="{mx}" y="{my}" width="{mw}" height="{mh}">{white}</mask></defs><g mask="url(#zm)"><g{tf}>{content}</g></g></svg>"#)
                         + &format!("<!--{} {} {} {}-->", mx, my, mw, mh)
-                },
-                None,
-            ),
+                }
+            ,
             _ => {
                 let op = g.rng.range(0, 10) as f32 / 10.0;
-                (format!(r#"{hdr}<defs>{defs0}</defs><g opacity="{op}"><g{tf}>{content}</g></g></svg>"#), None)
+                format!(r#"{hdr}<defs>{defs0}</defs><g opacity="{op}"><g{tf}>{content}</g></g></svg>"#)
             }
         };
         let (Some(pa), Some(pb)) = (render(&plain, &o, w, h), render(&wrapped, &o, w, h)) else { continue };
@@ -263,8 +327,35 @@ pub fn search(tier: &str, seed: u64, s: &mut Search) {
         let mut outside = vec![false; (wi * hi) as usize];
         match kind {
             0 => {
-                let Some(pg) = geometry.and_then(|gsvg| render(&gsvg, &o, w, h)) else { continue };
-                let ga = |x: i32, y: i32| -> u8 { if x < 0 || y < 0 || x >= wi || y >= hi { 0 } else { pg.data()[((y * wi + x) * 4 + 3) as usize] } };
+                // combine the geometry images
+                let mut alpha = vec![255u8; (wi * hi) as usize];
+                let mut failed = false;
+                for ors in &geometry {
+                    let mut acc_or = vec![0u8; (wi * hi) as usize];
+                    for ands in ors {
+                        let mut acc_and = vec![255u8; (wi * hi) as usize];
+                        for gsvg in ands {
+                            match render(gsvg, &o, w, h) {
+                                Some(pg) => {
+                                    for (k, a) in acc_and.iter_mut().enumerate() {
+                                        *a = (*a).min(pg.data()[k * 4 + 3]);
+                                    }
+                                }
+                                None => failed = true,
+                            }
+                        }
+                        for (k, a) in acc_or.iter_mut().enumerate() {
+                            *a = (*a).max(acc_and[k]);
+                        }
+                    }
+                    for (k, a) in alpha.iter_mut().enumerate() {
+                        *a = (*a).min(acc_or[k]);
+                    }
+                }
+                if failed || geometry.is_empty() {
+                    continue;
+                }
+                let ga = |x: i32, y: i32| -> u8 { if x < 0 || y < 0 || x >= wi || y >= hi { 0 } else { alpha[(y * wi + x) as usize] } };
                 for y in 0..hi {
                     for x in 0..wi {
                         let (mut mn, mut mx) = (255u8, 0u8);
